@@ -311,6 +311,12 @@ def run(ctx, rep):
     from . import c05
 
     c05.rule_repr(ctx, rep)
+    from . import c06
+
+    # "the stored length equals the number of elements the block really holds": the thin constructors record `items.len()` and
+    # hand the items to the fat constructor, which must then write exactly that many slots (or panic)
+    c06.rule_lenflow(ctx, rep)
+    c06.rule_iterloop(ctx, rep)
     rep.floor("R-THIN-CTOR", 2, "the typestate entry and at least one checked call site (today 3 instances)")
     rep.floor("R-PROT-MUT", 4, "header_mut, slice_mut, private field, no DerefMut")
     rep.floor("R-THICK", 3, "the re-fattening helper + at least two users (today 6)")
